@@ -1,6 +1,6 @@
 (** * C14 - NFT draw picks min(available, payers) distinct payers; fees reconcile. *)
 From Coq Require Import Permutation.
-From LP Require Import Proofs.Tactics Proofs.LedgerBase Proofs.Gates Proofs.Frames Proofs.Confirm Proofs.Nft Proofs.Examples Proofs.NftLedger Proofs.Setup Proofs.SetupNft Proofs.SetupNgt.
+From LP Require Import Proofs.Tactics Proofs.LedgerBase Proofs.Gates Proofs.Frames Proofs.Confirm Proofs.Nft Proofs.Examples Proofs.NftLedger Proofs.Setup Proofs.SetupNft Proofs.SetupNgt Proofs.Resume Proofs.NftPipeline.
 Open Scope N_scope.
 
 (** paying the fee: only in the confirmation window, only after the SFT set-up, only with confirmed
@@ -128,6 +128,31 @@ Proof.
   exact (conj (ni_fee _ Hi) (conj (ni_win _ Hi) (ni_cn _ Hi))).
 Qed.
 
+(** from deployment to the claim period: after the three stages - the third interrupted arbitrarily
+    often and resumed by anybody - the fee ledger holds and the owner's proceeds are
+    fee x min(NFTs, entrants); [C14_fee_claim], [C14_fee_owner], [C14_fee_drained] take over from there *)
+Theorem C14_fee_through_selection_nft : forall (H : list N -> list N) w0 lf wf ef bf w1 ls ws es bs w2 sd rest ln wn en bn w3,
+  setup_reach_nft H w0 ->
+  after_interrupted filter_tickets lf w0 = Some wf -> filter_tickets ef bf wf = Ok (w1, 0) ->
+  seeds w1 = sd :: rest ->
+  after_interrupted (select_winners H) ls w1 = Some ws -> select_winners H es bs ws = Ok (w2, 0) ->
+  after_interrupted (select_nft_winners_endpoint H) ln w2 = Some wn ->
+  select_nft_winners_endpoint H en bn wn = Ok (w3, 0) ->
+  FeeInv w3 /\
+  claimable_nft (st w3) = nft_amt (st w0) * N.min (total_nfts (st w0)) (N.of_nat (length (nft_payers (st w0)))).
+Proof. exact deployed_nft_fee. Qed.
+
+Theorem C14_fee_through_selection_ngt : forall (H : list N -> list N) w0 lf wf ef bf w1 ls ws es bs w2 sd rest ld wd ed bd w3,
+  setup_reach_ngt H w0 ->
+  after_interrupted filter_tickets lf w0 = Some wf -> filter_tickets ef bf wf = Ok (w1, 0) ->
+  seeds w1 = sd :: rest ->
+  after_interrupted (select_winners H) ls w1 = Some ws -> select_winners H es bs ws = Ok (w2, 0) ->
+  after_interrupted (secondary_selection_step H) ld w2 = Some wd ->
+  secondary_selection_step H ed bd wd = Ok (w3, 0) ->
+  FeeInv w3 /\
+  claimable_nft (st w3) = nft_amt (st w0) * N.min (total_nfts (st w0)) (N.of_nat (length (nft_payers (st w0)))).
+Proof. exact deployed_ngt_fee. Qed.
+
 Example C14_setup_nonvacuous :
   setup_reach_nft sha256 nft_confirmed /\
   (nft_payers (st nft_confirmed), confirmed (st nft_confirmed) 2, confirmed (st nft_confirmed) 3,
@@ -153,5 +178,7 @@ Print Assumptions C14_fee_owner.
 Print Assumptions C14_fee_drained.
 Print Assumptions C14_fee_from_deployment.
 Print Assumptions C14_fee_from_deployment_ngt.
+Print Assumptions C14_fee_through_selection_nft.
+Print Assumptions C14_fee_through_selection_ngt.
 Print Assumptions C14_setup_nonvacuous.
 Print Assumptions C14_nonvacuous.
